@@ -183,33 +183,37 @@ SPEC = dict(
     level="proof",
     design_ref="DESIGN.md §5 C40",
     technique=("Lean 4 invariant proofs over message-level transition systems (Paxos: Lamport SafeAt adapted to the code's "
-               "acceptor rule; Raft: vote-grant invariants over the transcribed raft_step, ghost per-term leader log / leader "
-               "commit index, macro/micro-step refinement) + "
+               "acceptor rule; Raft: election safety, log matching, leader completeness and state machine safety by inductive "
+               "invariants over the transcribed raft_step with ghost per-term leader log / leader commit index and message-history "
+               "predicates, macro/micro-step refinement) + "
                "differential correspondence of the real raft_step / the real simulated Hydro program against the compiled model "
                "+ operator-table translation of paxos.rs"),
-    level_text=("PARTIAL, and stated so. Raft: `raftStep` is a line-by-line Lean transcription of the pure step function "
+    level_text=("Raft: FULL for the transcribed step function, sampled for the wiring. `raftStep` is a line-by-line Lean transcription of the pure step function "
                 "`raft_step` (all decision rules of raft.rs live there). Theorems, for ALL executions (any sequence of raft_step "
                 "calls by any members on any batches of previously sent messages - loss, duplication, reordering, fail-stop - "
-                "any timers, any requests): election safety (<= 1 leader per term over the whole history), one vote per term, "
-                "leaders hold majority votes, LOG MATCHING (same term at a position in two logs => identical prefixes, via ghost "
-                "per-term canonical logs through the truncate/skip/append loop), index-consistency of logs; NO RETRACTION "
-                "(`raft_no_retraction`: a raft_step call never lowers commit_index and never changes a committed prefix - the "
-                "truncation guard); COMMIT PROVENANCE (`raft_commit_provenance`: every member's committed prefix is a prefix of "
-                "the log of the leader of some term whose leader had committed at least as much); proved on "
-                "micro-steps and transferred to whole raft_step calls by a refinement lemma. Committed-prefix agreement "
-                "(state machine safety = the property clause for Raft) is NOT proved: it is stated "
-                "(`RaftCommittedPrefixAgreementStatement`) and REDUCED to exactly one named, unproved lemma - leader "
-                "completeness (`RaftLeaderCompletenessStatement`, stated on the executions instrumented with the two history "
-                "variables): `raft_agreement_of_leader_completeness : RaftLeaderCompletenessStatement n -> "
-                "RaftCommittedPrefixAgreementStatement n` is a theorem. Also `raft_committed_prefix_agreement_partial` (commit <= "
-                "log length, emitted <= commit). For the unproved part the evidence is fuzz-level only: (a) the real `raft_step` is driven by a scripted "
+                "any timers, any requests): STATE MACHINE SAFETY `raft_committed_prefix_agreement` (no two members ever have "
+                "different entries at a position both have committed; `raft_committed_prefixes_comparable`), proved from LEADER "
+                "COMPLETENESS `raft_leader_completeness` (RAFT 5.4.3: the log of every later leader starts with everything an "
+                "earlier leader committed; invariants over ghost per-term leader log / leader commit index, acknowledgement "
+                "history, the 5.4.1 up-to-date vote check, the current-term commit rule of `advanceLoop` and match_index "
+                "bookkeeping - Lemmas/RaftLC*.lean), COMMIT PROVENANCE `raft_commit_provenance`, NO RETRACTION "
+                "`raft_no_retraction` (a raft_step call never lowers commit_index and never changes a committed prefix - the "
+                "truncation guard), LOG MATCHING `raft_log_matching`, election safety (<= 1 leader per term over the whole "
+                "history), one vote per term, leaders hold majority votes, index-consistency of logs, commit <= log length and "
+                "emitted <= commit; proved on micro-steps (phases of raft_step) and transferred to whole raft_step calls by a "
+                "refinement lemma. The theorems speak about the committed prefix `log[..commit_index]` of member states; that the "
+                "`committed` output stream of a member is exactly that prefix in order (emit loop: `emitted_index` runs up to "
+                "`commit_index`) is part of the transcription (`emitLoop`) and of the oracle, with `emitted <= commit` and no "
+                "retraction proved. The two `assert!`s of raft_step are modelled as `none` = the member takes no step (fail-stop). "
+                "Tie to the code: (a) the real `raft_step` is driven by a scripted "
                 "adversarial network (bounded random schedules incl. partitions, crashes, a scripted figure-8 prefix; 1-5 members) and every call's outputs + resulting state are "
                 "diffed against the compiled model, which also checks trace inclusion of the network; (b) the real Hydro program "
                 "`raft(..)` is compiled by the production simulator backend and run under seed-derived schedules (fuzz_repro "
                 "samples, not exhaustive), a cfg-guarded "
                 "hook logs every protocol step, which is diffed the same way; (c) the property itself (gap-free, pairwise "
                 "prefix-consistent committed sequences; one leader per term; log matching; no protocol-violation panic; externally "
-                "observed committed streams = step outputs) is evaluated on the real outputs of those sampled runs. Paxos: agreement (no slot has two "
+                "observed committed streams = step outputs) is evaluated on the real outputs of those sampled runs. "
+                "PARTIAL for Paxos: agreement (no slot has two "
                 "chosen values) proved for the ABSTRACT message-level protocol transcribed from paxos.rs, for all executions of "
                 "that abstract protocol, generic quorums and f+1 of 2f+1; the comparison operators / quorum sizes of the decision closures are "
                 "re-extracted from paxos.rs into Lean on every run and the theorems are re-checked against them; the rest of the "
@@ -238,7 +242,7 @@ SPEC = dict(
                   "hydro_lang::sim scheduler and the cfg-guarded trace hook in raft_step (observation only)",
                   "Rust `sort_by` stability (std) modelled by a stable insertion sort"],
     assumptions=["fail-stop members, fixed cluster size (Raft: cluster_size = number of members), payloads are opaque values",
-                 "Raft: committed-prefix agreement rests on the unproved RaftLeaderCompletenessStatement",
+                 "Raft: theorems are about executions of the transcribed raft_step (diffed against the real function on sampled inputs); the raft_server wiring around it is exercised only on sampled simulator schedules",
                  "Paxos: a proposer assigns at most one value to a (ballot, slot) pair (NOT established for paxos.rs)",
                  "Paxos: a quorum of Ok replies comes from f+1 distinct acceptors, i.e. an acceptor answers a (ballot) / (slot, ballot) key at most once (NOT established for paxos.rs: collect_quorum counts responses)",
                  "Paxos: no log garbage collection (a_checkpoint = None)"],
